@@ -2490,10 +2490,11 @@ impl<'s> Semantics<'s> {
             // with an operand-size prefix source and destination can have the
             // same width (movzx/movsx r16, r/m16), which is a plain move
             let dst_bits = (detail.operands[0].size as usize) * 8;
-            let value = if src.bits() == dst_bits {
-                src
-            } else {
-                Expr::zext(dst_bits, src)?
+            // movd from an xmm register takes its low doubleword
+            let value = match src.bits().cmp(&dst_bits) {
+                std::cmp::Ordering::Equal => src,
+                std::cmp::Ordering::Less => Expr::zext(dst_bits, src)?,
+                std::cmp::Ordering::Greater => Expr::trun(dst_bits, src)?,
             };
 
             self.operand_store(block, &detail.operands[0], value)?;
